@@ -55,7 +55,7 @@ Definition is_binop (h : heap) (p : option nat) : bool :=
   match p with Some pp => match nk (nd h pp) with NSel _ | NCond _ => true | _ => false end | None => false end.
 Definition oeq (a : option nat) (b : nat) : bool := match a with Some x => Nat.eqb x b | None => false end.
 
-(* rule.py:19-37 *)
+(* rule.py refinement() *)
 Definition do_refinement (cs : list atom) (st : bstate) : option (bstate * nat) :=
   let (h0, nb) := alloc (hp st) (NCond cs) in
   match stack st with
@@ -70,40 +70,54 @@ Definition do_refinement (cs : list atom) (st : bstate) : option (bstate * nat) 
           | None => None
           | Some _ => match set_parent h2 x pp with
                       | None => None
-                      | Some h3 => Some ({| hp := h3; stack := stack st; croot := croot st |}, nb)   (* pp.left/right untouched *)
+                      | Some h3 =>
+                          (* if isinstance(prev_parent, BinaryOperator): re-link the operand that was current_node *)
+                          let h4 := match pp with
+                                    | Some ppi =>
+                                        if is_binop h3 pp then
+                                          if oeq (nleft (nd h3 ppi)) cur then upd h3 ppi (w_left (Some x))
+                                          else upd h3 ppi (w_right (Some x))
+                                        else h3
+                                    | None => h3
+                                    end in
+                          Some ({| hp := h4; stack := stack st; croot := croot st |}, nb)
                       end
           end
       end
   end.
 
-(* rule.py:66-103 *)
+(* rule.py alternative_or_next(): `while parent is Alternative/Next or (parent is ExceptIf and current is its left)` *)
+Fixpoint climb (fuel : nat) (h : heap) (cur : nat) : nat :=
+  match fuel with
+  | O => cur
+  | S f =>
+      let p := nparent (nd h cur) in
+      if is_sel h p (fun s => match s with SExc => false | _ => true end)
+         || (is_sel h p (fun s => match s with SExc => true | _ => false end)
+             && match p with Some pp => oeq (nleft (nd h pp)) cur | None => false end)
+      then match p with Some pp => climb f h pp | None => cur end
+      else cur
+  end.
+
 Definition do_alt_next (s : sel) (cs : list atom) (st : bstate) : option (bstate * nat) :=
   let (h0, nb) := alloc (hp st) (NCond cs) in
   match stack st with
   | [] => None
   | top :: _ =>
-      let p := nparent (nd h0 top) in
-      let cur := if is_sel h0 p (fun s => match s with SExc => false | _ => true end) then p
-                 else if is_sel h0 p (fun s => match s with SExc => true | _ => false end)
-                         && match p with Some pp => oeq (nleft (nd h0 pp)) top | None => false end then p
-                 else Some top in
-      match cur with
+      let cur := climb (Datatypes.S (length h0)) h0 top in
+      let pp := nparent (nd h0 cur) in
+      match set_parent h0 cur None with
       | None => None
-      | Some cur =>
-          let pp := nparent (nd h0 cur) in
-          match set_parent h0 cur None with
+      | Some h1 =>
+          let (h2, x) := mk_bin h1 s cur nb in
+          match pp with
           | None => None
-          | Some h1 =>
-              let (h2, x) := mk_bin h1 s cur nb in
-              match pp with
+          | Some ppi =>
+              match set_parent h2 x pp with
               | None => None
-              | Some ppi =>
-                  match set_parent h2 x pp with
-                  | None => None
-                  | Some h3 =>
-                      let h4 := if is_binop h3 pp then upd h3 ppi (w_right (Some x)) else h3 in
-                      Some ({| hp := h4; stack := stack st; croot := croot st |}, nb)
-                  end
+              | Some h3 =>
+                  let h4 := if is_binop h3 pp then upd h3 ppi (w_right (Some x)) else h3 in
+                  Some ({| hp := h4; stack := stack st; croot := croot st |}, nb)
               end
           end
       end
@@ -217,19 +231,20 @@ Definition model (prog : rule) (W : list elem) : option (list (list nat * nat)) 
   | None => None
   end.
 
-(* ---- the intended tree of a program (ids erased to 0), mirroring RuleSpec.level ---- *)
+(* ---- the written tree of a program (ids erased to 0) ----
+   A branch with refinements r1 r2 .. rn (written order) is ExceptIf(.. ExceptIf(ExceptIf(leaf, Ln), ..), L1): the first
+   written refinement is outermost and therefore wins; Li is the level of ri (ri with its own refinements, followed by
+   the alternatives / next_rules written in its block).  The alternatives / next_rules of a level chain to the left. *)
 Definition sel_of (k : kind) : sel := match k with KNext => SNext | _ => SAlt end.
 Fixpoint tlevel (k : kind) (r : rule) (acc : option tree) {struct r} : tree :=
   match r with
   | Rule cs tg body =>
-      let exc := (fix rf (l : list (kind * rule)) (a : option tree) {struct l} : option tree :=
-                    match l with
-                    | [] => a
-                    | (KRef, q) :: l' => rf l' (Some (tlevel KAlt q a))
-                    | _ :: l' => rf l' a
-                    end) body None in
-      let leaf := Leaf 0 cs (tag_list tg) in
-      let me := match exc with None => leaf | Some x => Node 0 SExc leaf x end in
+      let me := (fix rf (l : list (kind * rule)) {struct l} : tree :=
+                   match l with
+                   | [] => Leaf 0 cs (tag_list tg)
+                   | (KRef, q) :: l' => Node 0 SExc (rf l') (tlevel KAlt q None)
+                   | _ :: l' => rf l'
+                   end) body in
       let t0 := match acc with None => me | Some a => Node 0 (sel_of k) a me end in
       (fix sib (l : list (kind * rule)) (t : tree) {struct l} : tree :=
          match l with
